@@ -182,6 +182,17 @@ def generate_liveness(c: Chooser, rng) -> Dict:
             h = c.pick(list(classes))
             fields = [f for (dc, f, rc) in RELATABLE if dc == classes[h]]
             ops.append(["unassign", h, c.pick(fields)])
+        elif r < 0.70 and len(classes) < 9:
+            # a new instance is constructed with the live managed collection of an existing one (which may die later)
+            donors = [(h, f) for h, cs in classes.items() for (dc, f, rc) in RELATABLE if dc == cs and FIELD_KIND[(cs, f)] != "single"]
+            if donors:
+                h, f = c.pick(donors)
+                ops.append(["create_with", nxt, classes[h], nxt, h, f])
+                classes[nxt] = classes[h]
+                nxt += 1
+                if c.chance(0.5):
+                    ops.append(["drop", h])
+                    del classes[h]
         elif r < 0.80:
             h = c.pick(list(classes))
             ops.append(["drop", h])
@@ -224,6 +235,24 @@ def run_liveness(arg) -> Dict:
                     indices[op[3]] = None if w is None else w.index
                     ids[op[3]] = id(obj)
                 del obj
+            elif kind == "create_with":
+                _, h, cls_name, serial, donor, field = op
+                src = world.handles.get(donor)
+                if src is not None and h not in world.handles and type(src).__name__ == cls_name and cls_name not in ("Boss", "Dean"):
+                    import weakref as _wr
+
+                    obj = oworld.ONTOLOGY_CLASSES[cls_name](serial, **{field: getattr(src, field)})
+                    world.seq += 1
+                    rec = {"serial": serial, "cls": cls_name, "ref": _wr.ref(obj), "epoch": world.epoch, "seq": world.seq, "dropped": False}
+                    world.census.append(rec)
+                    world.by_serial[serial] = rec
+                    world.handles[h] = obj
+                    w = SymbolGraph().get_wrapped_instance(obj)
+                    indices[serial] = None if w is None else w.index
+                    ids[serial] = id(obj)
+                    counters.inc("op.create_with_foreign_collection")
+                    del obj
+                del src
             elif kind == "relate":
                 world.relate(op[1], op[2], op[3], op[4])
             elif kind == "unassign":
